@@ -5,6 +5,7 @@
   check.py --unit <unit> [--mode normal|canary|mutants] [--keep]   developer entry: one unit, verbose
   check.py --replay <replay.json>                 print a replay file and re-run its obligation
   check.py --list                                 units and the properties they serve
+  check.py --record-skeletons                     (maintenance, clean tree only) record the statement structure of every extracted function
 
 Every run re-extracts the real functions from the /repo working tree with xt (DESIGN.md §2.1),
 splices the contracts written in units/*.vrs and runs Verus on the generated single file.
@@ -731,6 +732,33 @@ def check_canaries(unit_path):
 
 
 # ------------------------------------------------------------------ property level
+SKEL_RE = re.compile(r"__verif_\w+|\b(?:let|match|if|else|loop|while|for|return|break|continue)\b|=>|[{};]")
+
+
+def skeleton(text):
+    """statement structure of an extracted item: keywords, braces, statement ends, match arms, anchors - no names, no expressions"""
+    import hashlib
+    return hashlib.sha1(" ".join(m.group(0) for m in SKEL_RE.finditer(text or "")).encode()).hexdigest()[:16]
+
+
+def load_skeletons():
+    p = os.path.join(VERIF, "skeletons.json")
+    return json.load(open(p)) if os.path.exists(p) else {}
+
+
+def record_skeletons():
+    out = {}
+    os.makedirs(BUILD, exist_ok=True)
+    for fn in sorted(os.listdir(UNITS)):
+        if fn.endswith(".vrs"):
+            unit = parse_unit(os.path.join(UNITS, fn))
+            run_xt(unit, BUILD)
+            out[unit["name"]] = {t.key: skeleton(t.text) for t in unit["takes"] if "fn" in t.selector}
+    with open(os.path.join(VERIF, "skeletons.json"), "w") as f:
+        json.dump(out, f, indent=1, sort_keys=True)
+    print("recorded", sum(len(v) for v in out.values()), "function skeletons")
+
+
 def load_props():
     return json.load(open(os.path.join(VERIF, "props.json")))
 
@@ -917,9 +945,21 @@ def decide(prop, tier, seed):
     exc = [re.compile(x) for x in pinfo.get("exclude", [])]
     ign = [re.compile(x) for x in pinfo.get("ignore", [])]   # functions of a shared unit outside this property's call tree
     ignored_fns = set()
+    # a function whose statement structure differs from the recorded baseline (statements added / removed / reordered, loops or
+    # branches changed) may have its overlay sections spliced at the wrong places: a failed proof there is only reported as a
+    # violation when the witness search finds a concrete failing input; otherwise the answer is UNDECIDED (exit 2), never an alarm.
+    skel = load_skeletons()
+    restructured = set()
+    for r in results:
+        base = skel.get(r["unit"]["name"], {})
+        for t in r["unit"]["takes"]:
+            if t.key in base and t.text is not None and skeleton(t.text) != base[t.key]:
+                restructured.add((r["unit"]["name"], t.key))
     for r in results:
         for f in r["failures"]:
             oid = obligation_id(r["unit"]["name"], f)
+            if (r["unit"]["name"], f.get("take")) in restructured:
+                f["restructured"] = True
             if any(x.search(oid) for x in ign):
                 ignored_fns.add((r["unit"]["name"], f.get("function")))
                 continue
@@ -964,6 +1004,13 @@ def decide(prop, tier, seed):
             if not [x for x in findings if x.get("property") == prop and x.get("obligation") == vid]:
                 violations.append((vid, {"label": w.get("case"), "function": w["check"], "kind": "witness", "message": w.get("what", ""),
                                          "witness": w, "rendered": json.dumps(w) + "\n(undecided by the verifier: " + "; ".join(reasons)[:600] + ")"}, None))
+    kept = []
+    for oid, f, r in violations:
+        if f.get("restructured") and not f.get("witness"):
+            reasons.append(f"{oid}: the proof fails, but the function's statement structure differs from the recorded baseline (overlay anchors may be misaligned) and the witness search found no failing input")
+        else:
+            kept.append((oid, f, r))
+    violations = kept
     wall = time.time() - t0
     # ---- evidence
     ev = build_evidence(prop, pinfo, tier, seed, results, canaries, mutant_results, bounded, violations, known_hits, reasons, wall)
@@ -1092,6 +1139,9 @@ def main():
     tier = os.environ.get("VERIF_TIER", "quick")
     if "--tier" in a:
         tier = a[a.index("--tier") + 1]
+    if a[0] == "--record-skeletons":
+        record_skeletons()
+        return 0
     if a[0] == "--list":
         for fn in sorted(os.listdir(UNITS)):
             if fn.endswith(".vrs"):
